@@ -1,11 +1,774 @@
-// Package c13 is the correspondence/oracle harness for property C13.
+// Package c13: splitting respects the size limit and never corrupts text.
+//
+// Three observed APIs:
+//
+//	rag.NewSizeCalculatorWithConfig(c).SplitToSize(text, nil)        (op c13.split)
+//	rag.ChunkDocumentWithConfig(doc, chunkerCfg, sizeCfg)            (op c13.doc)
+//	rag.NewChunkerWithConfig(c).ChunkWithOverlapEnabled(doc)         (op c13.cwo)
+//
+// plus rag.ApplyOverlapToChunks directly for every overlap strategy (op c13.ovl).
+// The oracles below are written from the property text only.
 package c13
 
-import "verifharness/hx"
+import (
+	"encoding/hex"
+	"fmt"
+	"strings"
+	"time"
+	"unicode"
+	"unicode/utf8"
+
+	"github.com/tsawler/tabula/model"
+	"github.com/tsawler/tabula/rag"
+
+	"verifharness/hx"
+)
+
+const deadline = 4 * time.Second
+
+// withDeadline runs f in its own goroutine; a panic is returned as text, an
+// overrun as timedOut (the goroutine is abandoned; the caller stops the run).
+func withDeadline(f func()) (panicked string, timedOut bool) {
+	done := make(chan string, 1)
+	go func() { done <- hx.Safe(f) }()
+	select {
+	case p := <-done:
+		return p, false
+	case <-time.After(deadline):
+		return "", true
+	}
+}
+
+// ---- statement-level helpers --------------------------------------------------------
+
+// nonSpace is the sequence of non-whitespace characters of s; a byte that is not
+// part of a well-formed character counts as a character of its own.
+func nonSpace(s string) []rune {
+	var out []rune
+	for i := 0; i < len(s); {
+		r, n := utf8.DecodeRuneInString(s[i:])
+		if r == utf8.RuneError && n <= 1 {
+			out = append(out, 0x110000+rune(s[i]))
+			i++
+			continue
+		}
+		if !unicode.IsSpace(r) {
+			out = append(out, r)
+		}
+		i += n
+	}
+	return out
+}
+
+func runesEq(a, b []rune) bool {
+	if len(a) != len(b) {
+		return false
+	}
+	for i := range a {
+		if a[i] != b[i] {
+			return false
+		}
+	}
+	return true
+}
+
+func isSuffix(suf, all []rune) bool {
+	return len(suf) <= len(all) && runesEq(suf, all[len(all)-len(suf):])
+}
+
+func firstDiff(a, b []rune) string {
+	n := len(a)
+	if len(b) < n {
+		n = len(b)
+	}
+	for i := 0; i < n; i++ {
+		if a[i] != b[i] {
+			return fmt.Sprintf("first difference at character %d: U+%04X vs U+%04X (lengths %d, %d)", i, a[i], b[i], len(a), len(b))
+		}
+	}
+	return fmt.Sprintf("lengths %d vs %d", len(a), len(b))
+}
+
+func short(s string) string {
+	if len(s) > 60 {
+		return fmt.Sprintf("%q…(%d bytes)", s[:60], len(s))
+	}
+	return fmt.Sprintf("%q", s)
+}
+
+func toRag(c sizeCfg) rag.SizeConfig {
+	sc := rag.DefaultSizeConfig()
+	sc.Max = rag.SizeLimit{Value: c.Max, Unit: rag.SizeUnit(c.Unit), Type: rag.LimitTypeHard}
+	sc.TokensPerChar = float64(c.TpcNum) / float64(int(1)<<c.TpcExp)
+	sc.SplitAtSemanticBoundaries = c.Sem
+	return sc
+}
+
+func cfgField(c sizeCfg) string {
+	sem := 0
+	if c.Sem {
+		sem = 1
+	}
+	return fmt.Sprintf("%d:%d:%d/%d:%d", c.Unit, c.Max, c.TpcNum, 1<<c.TpcExp, sem)
+}
+
+func hexPieces(ps []string) string { return "[" + hx.HexList(ps) + "]" }
+
+// pieceSize is the size of a piece in the unit of the hard maximum, as the
+// configuration documents it: characters = bytes, tokens = floor(bytes*ratio).
+func pieceSize(c sizeCfg, p string) int {
+	if c.Unit == 1 {
+		return len(p) * c.TpcNum >> c.TpcExp
+	}
+	return len(p)
+}
+
+type splitCase struct {
+	Kind  string   `json:"kind"`
+	Text  string   `json:"text,omitempty"`  // hex
+	Paras []string `json:"paras,omitempty"` // hex
+	Cfg   sizeCfg  `json:"cfg"`
+}
+
+// pieceOracles: conservation, UTF-8 integrity, size bound.
+func pieceOracles(c *hx.Ctx, api string, kase interface{}, cfg sizeCfg, source string, pieces []string) {
+	want := nonSpace(source)
+	var got []rune
+	for _, p := range pieces {
+		got = append(got, nonSpace(p)...)
+	}
+	c.Check("C13/conserves-nonspace", runesEq(want, got), kase, func() string {
+		return api + ": non-whitespace characters of the pieces differ from the text: " + firstDiff(want, got)
+	})
+	if utf8.ValidString(source) {
+		for i, p := range pieces {
+			if !c.Check("C13/utf8-piece", utf8.ValidString(p), kase, func() string {
+				return fmt.Sprintf("%s: piece %d of %d is not valid UTF-8 although the text is: %s", api, i, len(pieces), short(p))
+			}) {
+				break
+			}
+		}
+	}
+	if (cfg.Unit == 0 || cfg.Unit == 1) && cfg.Max >= 200 && cfg.TpcNum > 0 && spacedEvery50(source) {
+		for i, p := range pieces {
+			sz := pieceSize(cfg, p)
+			if !c.Check("C13/size-bound", sz <= cfg.Max, kase, func() string {
+				return fmt.Sprintf("%s: piece %d has size %d (%d bytes) > hard max %d (unit %d) although the text has a space every 50 bytes", api, i, sz, len(p), cfg.Max, cfg.Unit)
+			}) {
+				break
+			}
+		}
+		c.Count("size-bound-checked")
+	}
+}
+
+// runSplit: API 1. Returns false when the run must stop (a call did not return).
+func runSplit(c *hx.Ctx, text string, cfg sizeCfg) bool {
+	kase := splitCase{Kind: "split", Text: hx.HexS(text), Cfg: cfg}
+	var pieces []string
+	p, to := withDeadline(func() { pieces = rag.NewSizeCalculatorWithConfig(toRag(cfg)).SplitToSize(text, nil) })
+	if !c.Check("C13/terminates", !to, kase, func() string {
+		return fmt.Sprintf("SplitToSize did not return within %v on %s", deadline, short(text))
+	}) {
+		return false
+	}
+	op := "c13.split " + cfgField(cfg) + " " + hx.HexS(text)
+	if !c.Check("C13/panic", p == "", kase, func() string { return "SplitToSize panicked: " + p }) {
+		c.Op(op, "panic")
+		return true
+	}
+	c.Op(op, hexPieces(pieces))
+	pieceOracles(c, "SplitToSize", kase, cfg, text, pieces)
+	for i, pc := range pieces {
+		if !c.Check("C13/empty-piece", pc != "", kase, func() string {
+			return fmt.Sprintf("SplitToSize: piece %d of %d is the empty string (text %s)", i, len(pieces), short(text))
+		}) {
+			break
+		}
+	}
+	c.Count(fmt.Sprintf("split-pieces=%s", bucket(len(pieces))))
+	return true
+}
+
+func bucket(n int) string {
+	switch {
+	case n <= 1:
+		return fmt.Sprint(n)
+	case n <= 4:
+		return "2-4"
+	case n <= 20:
+		return "5-20"
+	}
+	return ">20"
+}
+
+func paraDoc(paras []string) *model.Document {
+	doc := model.NewDocument()
+	page := model.NewPage(612, 792)
+	for _, p := range paras {
+		page.AddElement(&model.Paragraph{Text: p})
+	}
+	doc.AddPage(page)
+	return doc
+}
+
+// runDoc: API 2.
+func runDoc(c *hx.Ctx, paras []string, cfg sizeCfg) bool {
+	kase := splitCase{Kind: "doc", Paras: hexAll(paras), Cfg: cfg}
+	var texts []string
+	p, to := withDeadline(func() {
+		col := rag.ChunkDocumentWithConfig(paraDoc(paras), rag.DefaultChunkerConfig(), toRag(cfg))
+		for _, ch := range col.Chunks {
+			texts = append(texts, ch.Text)
+		}
+	})
+	if !c.Check("C13/terminates", !to, kase, func() string {
+		return fmt.Sprintf("ChunkDocumentWithConfig did not return within %v", deadline)
+	}) {
+		return false
+	}
+	op := "c13.doc " + cfgField(cfg) + " " + hx.HexList(paras)
+	if !c.Check("C13/panic", p == "", kase, func() string { return "ChunkDocumentWithConfig panicked: " + p }) {
+		c.Op(op, "panic")
+		return true
+	}
+	c.Op(op, hexPieces(texts))
+	pieceOracles(c, "ChunkDocumentWithConfig", kase, cfg, strings.Join(paras, "\n\n"), texts)
+	return true
+}
+
+func hexAll(xs []string) []string {
+	ys := make([]string, len(xs))
+	for i, x := range xs {
+		ys[i] = hx.HexS(x)
+	}
+	return ys
+}
+
+func unhexAll(xs []interface{}) []string {
+	var ys []string
+	for _, x := range xs {
+		ys = append(ys, unhex(fmt.Sprint(x)))
+	}
+	return ys
+}
+
+func unhex(s string) string {
+	if s == "-" {
+		return ""
+	}
+	b, _ := hex.DecodeString(s)
+	return string(b)
+}
+
+// ---- overlap ------------------------------------------------------------------------
+
+type ovlCfg struct {
+	Strategy int  `json:"strategy"` // rag.OverlapStrategy: 0 none, 1 character, 2 sentence, 3 paragraph
+	Size     int  `json:"size"`
+	Min      int  `json:"min"`
+	Max      int  `json:"max"`
+	Words    bool `json:"words"`
+	Ctx      bool `json:"ctx"`
+}
+
+type ovlCase struct {
+	Kind   string   `json:"kind"`
+	Cfg    ovlCfg   `json:"ocfg"`
+	Chunks []string `json:"chunks"` // hex
+	Titles []string `json:"titles"` // hex
+	// cwo only
+	OverlapSize int  `json:"overlap_size,omitempty"`
+	Sentences   bool `json:"sentences,omitempty"`
+	MaxChunk    int  `json:"max_chunk,omitempty"`
+}
+
+func b01(b bool) int {
+	if b {
+		return 1
+	}
+	return 0
+}
+
+// classTable: unicode.IsUpper/IsLetter/IsDigit/IsSpace/ToLower of every
+// non-ASCII character of the texts (stdlib tables are a parameter of the model).
+func classTable(texts []string) string {
+	seen := map[rune]bool{}
+	var out []string
+	for _, t := range texts {
+		for _, r := range t { // invalid bytes range as U+FFFD, exactly as []rune(text) does
+			if r < 0x80 || seen[r] {
+				continue
+			}
+			seen[r] = true
+			f := 0
+			if unicode.IsUpper(r) {
+				f |= 1
+			}
+			if unicode.IsLetter(r) {
+				f |= 2
+			}
+			if unicode.IsDigit(r) {
+				f |= 4
+			}
+			if unicode.IsSpace(r) {
+				f |= 8
+			}
+			out = append(out, fmt.Sprintf("%d.%d.%d", r, f, unicode.ToLower(r)))
+		}
+	}
+	if len(out) == 0 {
+		return "-"
+	}
+	return strings.Join(out, ",")
+}
+
+type ovlOut struct {
+	Prefix string
+	Has    bool
+	Text   string
+}
+
+func dumpOvl(rs []ovlOut) string {
+	xs := make([]string, len(rs))
+	for i, r := range rs {
+		xs[i] = fmt.Sprintf("%d/%s/%s", b01(r.Has), hx.HexS(r.Prefix), hx.HexS(r.Text))
+	}
+	return "[" + strings.Join(xs, ",") + "]"
+}
+
+// overlapOracles: own = each chunk's own content (before overlap), titles = its
+// section title, res = what the implementation returned. maxOverlap/size are the
+// configured bounds.
+func overlapOracles(c *hx.Ctx, api string, kase interface{}, strategy int, size, maxOverlap int, ctx bool, own, titles []string, res []ovlOut) {
+	if !c.Check("C13/overlap-count", len(res) == len(own), kase, func() string {
+		return fmt.Sprintf("%s: %d chunks in, %d out", api, len(own), len(res))
+	}) {
+		return
+	}
+	for i, r := range res {
+		if !r.Has {
+			c.Check("C13/overlap-own-content", r.Text == own[i] && r.Prefix == "", kase, func() string {
+				return fmt.Sprintf("%s: chunk %d has no overlap but its text changed: %s vs %s", api, i, short(r.Text), short(own[i]))
+			})
+			continue
+		}
+		c.Count("overlap-applied")
+		head := ""
+		if ctx && titles[i] != "" {
+			head = "[" + titles[i] + "]\n\n"
+		}
+		c.Check("C13/overlap-own-content", i > 0 && r.Text == head+r.Prefix+"\n\n"+own[i], kase, func() string {
+			return fmt.Sprintf("%s: chunk %d text is not <overlap>\\n\\n<own content>: %s", api, i, short(r.Text))
+		})
+		if i == 0 {
+			continue
+		}
+		prev := own[i-1]
+		c.Check("C13/overlap-suffix", isSuffix(nonSpace(r.Prefix), nonSpace(prev)), kase, func() string {
+			return fmt.Sprintf("%s: overlap of chunk %d %s is not a suffix of the previous chunk's own content %s", api, i, short(r.Prefix), short(tail(prev, 80)))
+		})
+		if utf8.ValidString(prev) {
+			c.Check("C13/overlap-utf8", utf8.ValidString(r.Prefix), kase, func() string {
+				return fmt.Sprintf("%s: overlap of chunk %d is not valid UTF-8: %s (previous chunk ends %s)", api, i, short(r.Prefix), short(tail(prev, 40)))
+			})
+		}
+		bound := maxOverlap
+		if strategy == 1 && size < bound {
+			bound = size
+		}
+		c.Check("C13/overlap-bounds", len(r.Prefix) <= bound, kase, func() string {
+			return fmt.Sprintf("%s: overlap of chunk %d has %d bytes > configured bound %d (strategy %d size %d max %d)", api, i, len(r.Prefix), bound, strategy, size, maxOverlap)
+		})
+	}
+}
+
+func tail(s string, n int) string {
+	if len(s) > n {
+		return s[len(s)-n:]
+	}
+	return s
+}
+
+// runOvl: rag.ApplyOverlapToChunks on base chunks with the given texts.
+func runOvl(c *hx.Ctx, cfg ovlCfg, texts, titles []string) bool {
+	kase := ovlCase{Kind: "ovl", Cfg: cfg, Chunks: hexAll(texts), Titles: hexAll(titles)}
+	var res []ovlOut
+	p, to := withDeadline(func() {
+		chunks := make([]*rag.Chunk, len(texts))
+		for i, t := range texts {
+			chunks[i] = rag.NewChunk(fmt.Sprintf("c%d", i), t, rag.ChunkMetadata{SectionTitle: titles[i]})
+		}
+		out := rag.ApplyOverlapToChunks(chunks, rag.OverlapConfig{Strategy: rag.OverlapStrategy(cfg.Strategy), Size: cfg.Size,
+			MinOverlap: cfg.Min, MaxOverlap: cfg.Max, PreserveWords: cfg.Words, IncludeHeadingContext: cfg.Ctx})
+		for _, o := range out {
+			res = append(res, ovlOut{o.OverlapPrefix, o.HasOverlapPrefix, o.Text})
+		}
+	})
+	if !c.Check("C13/terminates", !to, kase, func() string { return "ApplyOverlapToChunks did not return" }) {
+		return false
+	}
+	op := fmt.Sprintf("c13.ovl %d:%d:%d:%d:%d:%d %s %s %s", cfg.Strategy, cfg.Size, cfg.Min, cfg.Max, b01(cfg.Words), b01(cfg.Ctx),
+		classTable(texts), hx.HexList(titles), hx.HexList(texts))
+	if !c.Check("C13/panic", p == "", kase, func() string { return "ApplyOverlapToChunks panicked: " + p }) {
+		c.Op(op, "panic")
+		return true
+	}
+	c.Op(op, dumpOvl(res))
+	overlapOracles(c, "ApplyOverlapToChunks", kase, cfg.Strategy, cfg.Size, cfg.Max, cfg.Ctx, texts, titles, res)
+	c.Count(fmt.Sprintf("ovl-strategy=%d", cfg.Strategy))
+	return true
+}
+
+func layoutDoc(paras []string) *model.Document {
+	doc := model.NewDocument()
+	page := model.NewPage(612, 792)
+	lay := &model.PageLayout{}
+	for i, p := range paras {
+		lay.Paragraphs = append(lay.Paragraphs, model.ParagraphInfo{Index: i, Text: p})
+	}
+	page.Layout = lay
+	doc.AddPage(page)
+	return doc
+}
+
+// runCwo: API 3. The base chunks come from Chunker.Chunk on an identical document.
+func runCwo(c *hx.Ctx, paras []string, overlapSize int, sentences bool, maxChunk int, ctx bool) bool {
+	kase := ovlCase{Kind: "cwo", Chunks: hexAll(paras), OverlapSize: overlapSize, Sentences: sentences, MaxChunk: maxChunk, Cfg: ovlCfg{Ctx: ctx}}
+	cc := rag.DefaultChunkerConfig()
+	cc.MaxChunkSize = maxChunk
+	cc.TargetChunkSize = maxChunk / 2
+	cc.MinChunkSize = maxChunk / 10
+	cc.OverlapSize = overlapSize
+	cc.OverlapSentences = sentences
+	cc.IncludeSectionContext = ctx
+	var own, titles []string
+	var res []ovlOut
+	p, to := withDeadline(func() {
+		base, err := rag.NewChunkerWithConfig(cc).Chunk(layoutDoc(paras))
+		if err != nil {
+			panic(err)
+		}
+		for _, ch := range base.Chunks {
+			own = append(own, ch.Text)
+			titles = append(titles, ch.Metadata.SectionTitle)
+		}
+		out, err := rag.NewChunkerWithConfig(cc).ChunkWithOverlapEnabled(layoutDoc(paras))
+		if err != nil {
+			panic(err)
+		}
+		for _, o := range out.Chunks {
+			res = append(res, ovlOut{o.OverlapPrefix, o.HasOverlapPrefix, o.Text})
+		}
+	})
+	if !c.Check("C13/terminates", !to, kase, func() string { return "ChunkWithOverlapEnabled did not return" }) {
+		return false
+	}
+	if !c.Check("C13/panic", p == "", kase, func() string { return "ChunkWithOverlapEnabled panicked: " + p }) {
+		return true
+	}
+	if len(own) > 0 {
+		c.Op(fmt.Sprintf("c13.cwo %d:%d:%d %s %s %s", overlapSize, b01(sentences), b01(ctx), classTable(own), hx.HexList(titles), hx.HexList(own)), dumpOvl(res))
+	}
+	// conservation of the base chunks (sentence packing of oversized paragraphs)
+	want := nonSpace(strings.Join(paras, "\n\n"))
+	var got []rune
+	for _, t := range own {
+		got = append(got, nonSpace(t)...)
+	}
+	c.Check("C13/conserves-nonspace", runesEq(want, got), kase, func() string {
+		return "Chunker.Chunk: non-whitespace characters of the chunks differ from the paragraphs: " + firstDiff(want, got)
+	})
+	valid := true
+	for _, p := range paras {
+		valid = valid && utf8.ValidString(p)
+	}
+	if valid {
+		for i, t := range own {
+			c.Check("C13/utf8-piece", utf8.ValidString(t), kase, func() string {
+				return fmt.Sprintf("Chunker.Chunk: chunk %d is not valid UTF-8: %s", i, short(t))
+			})
+		}
+	}
+	strategy := 0
+	size := overlapSize
+	if overlapSize > 0 {
+		strategy = 1
+		if sentences {
+			strategy = 2
+		}
+	}
+	overlapOracles(c, "ChunkWithOverlapEnabled", kase, strategy, size, overlapSize*3, ctx, own, titles, res)
+	c.Count(fmt.Sprintf("cwo-chunks=%s", bucket(len(own))))
+	return true
+}
+
+// ---- generation ---------------------------------------------------------------------
+
+func genSplitCase(r *hx.Rng) (string, sizeCfg, string) {
+	cfg := genSizeCfg(r)
+	kind := hx.Pick(r, textKinds)
+	target := bytesAtLimit(cfg)
+	if target > 6000 {
+		target = 6000
+	}
+	var n int
+	switch r.Intn(5) {
+	case 0:
+		n = r.Range(0, target+2) // around / below the limit
+	case 1:
+		n = target + r.Range(-3, 3)
+	case 2:
+		if target < 150 {
+			n = r.Range(8*target, 30*target+100) // many pieces
+			if n > 3000 {
+				n = 3000
+			}
+		} else {
+			n = r.Range(target, 4*target+40)
+		}
+	default:
+		n = r.Range(target, 4*target+40)
+	}
+	if n < 0 {
+		n = 0
+	}
+	if n > 9000 {
+		n = 9000
+	}
+	return genText(r, kind, n), cfg, kind
+}
+
+// boundCase: the region of the size bound: characters/tokens, limit >= 200, a
+// space every 50 bytes.
+func genBoundCase(r *hx.Rng) (string, sizeCfg) {
+	cfg := genSizeCfg(r)
+	cfg.Unit = r.Intn(2)
+	if cfg.Max < 200 {
+		cfg.Max = r.Range(200, 900)
+	}
+	target := bytesAtLimit(cfg)
+	text := genSpaced(r, r.Range(target, 3*target+50), r.Intn(6))
+	// put sentence ends and spaces exactly around the limit position sometimes
+	if r.Chance(1, 2) && len(text) > target+2 {
+		b := []byte(text)
+		pos := target + r.Range(-2, 2)
+		if pos > 1 && pos+1 < len(b) && b[pos] < 0x80 && b[pos+1] < 0x80 && b[pos-1] < 0x80 && (pos+2 >= len(b) || b[pos+2] < 0x80) {
+			b[pos] = hx.Pick(r, []byte{'.', '!', '?', ' '})
+			b[pos+1] = hx.Pick(r, []byte{' ', '\n'})
+			if spacedEvery50(string(b)) {
+				text = string(b)
+			}
+		}
+	}
+	if r.Chance(1, 4) {
+		text = text[:len(text)-1] // no trailing space
+	}
+	return text, cfg
+}
+
+var ovlKinds = []string{"ascii", "spaced", "cjk", "emoji", "combining", "latin-mixed", "mixed", "longtoken"}
+
+func genChunkTexts(r *hx.Rng) []string {
+	n := r.Range(1, 5)
+	var out []string
+	for i := 0; i < n; i++ {
+		t := genText(r, hx.Pick(r, ovlKinds), r.Range(0, 400))
+		if r.Chance(1, 2) {
+			t = strings.TrimSpace(t)
+		}
+		out = append(out, t)
+	}
+	return out
+}
+
+func genOvlCfg(r *hx.Rng) ovlCfg {
+	cfg := ovlCfg{Strategy: r.Intn(4), Words: r.Chance(3, 4), Ctx: r.Chance(1, 4)}
+	switch cfg.Strategy {
+	case 1:
+		cfg.Size = hx.Pick(r, []int{1, 2, 3, 5, 10, 20, 50, 100, 200, 500})
+	default:
+		cfg.Size = r.Range(0, 4)
+	}
+	cfg.Min = hx.Pick(r, []int{0, 5, 20, 50})
+	cfg.Max = hx.Pick(r, []int{1, 3, 10, 30, 60, 150, 500})
+	return cfg
+}
 
 func init() { hx.Register("C13", Run, Replay) }
 
-// Run is not built yet for this property.
-func Run(c *hx.Ctx) { c.Note("C13: harness not built") }
+func Run(c *hx.Ctx) {
+	c.Rep.Rule = "split: texts of 11 kinds (ASCII prose, spaced prose with a space every 50 bytes, CJK without spaces, emoji/ZWJ, combining sequences, long tokens, whitespace only, mixed, Latin-1 mixed, invalid UTF-8, whitespace-edged) x 5 units x limits 1..4000 x dyadic tokens-per-char, length 0..4x the limit; bound: characters/tokens, limit >= 200, generated with a space every 50 bytes and sentence ends placed at the limit; doc: 1-3 paragraphs through ChunkDocumentWithConfig; ovl: 1-5 chunk texts x 4 strategies x sizes through ApplyOverlapToChunks; cwo: paragraph documents through ChunkWithOverlapEnabled (character and sentence overlap); non-trivial = more than one piece / at least one overlap applied"
+	// hand-picked edge cases first
+	for _, e := range edgeCases() {
+		if !runSplit(c, e.text, e.cfg) {
+			return
+		}
+		c.Case("edge:"+e.text+cfgField(e.cfg), true)
+	}
+	for _, e := range edgeOverlapCases() {
+		titles := make([]string, len(e.texts))
+		if !runOvl(c, e.cfg, e.texts, titles) {
+			return
+		}
+		c.Case(fmt.Sprintf("edge-o%v%v", e.cfg, e.texts), true)
+	}
+	// "a.B.": a capital letter right after a sentence end inside an oversized paragraph
+	if !runCwo(c, []string{"This is a long paragraph of text.B. And more words follow here to exceed sixty bytes."}, 10, true, 60, false) {
+		return
+	}
+	n := c.N(1500, 40000)
+	for i := 0; i < n; i++ {
+		r := c.Rng.Fork(uint64(i))
+		text, cfg, kind := genSplitCase(r)
+		if !runSplit(c, text, cfg) {
+			return
+		}
+		c.Count("text=" + kind)
+		c.Count(fmt.Sprintf("unit=%d", cfg.Unit))
+		c.Case("s"+cfgField(cfg)+text, len(text) > bytesAtLimit(cfg))
+	}
+	n = c.N(1000, 25000)
+	for i := 0; i < n; i++ {
+		r := c.Rng.Fork(uint64(1<<20 + i))
+		text, cfg := genBoundCase(r)
+		if !runSplit(c, text, cfg) {
+			return
+		}
+		c.Count("text=bound")
+		c.Case("b"+cfgField(cfg)+text, true)
+	}
+	n = c.N(400, 8000)
+	for i := 0; i < n; i++ {
+		r := c.Rng.Fork(uint64(2<<20 + i))
+		var paras []string
+		var cfg sizeCfg
+		if r.Bool() {
+			t, cf := genBoundCase(r)
+			paras, cfg = []string{t}, cf
+		} else {
+			t, cf, _ := genSplitCase(r)
+			paras, cfg = []string{t}, cf
+		}
+		for k := r.Intn(3); k > 0; k-- {
+			paras = append(paras, genText(r, hx.Pick(r, textKinds), r.Range(0, 300)))
+		}
+		if !runDoc(c, paras, cfg) {
+			return
+		}
+		c.Case("d"+cfgField(cfg)+strings.Join(paras, "|"), true)
+	}
+	n = c.N(1000, 20000)
+	for i := 0; i < n; i++ {
+		r := c.Rng.Fork(uint64(3<<20 + i))
+		cfg := genOvlCfg(r)
+		texts := genChunkTexts(r)
+		titles := make([]string, len(texts))
+		for j := range titles {
+			if r.Chance(1, 2) {
+				titles[j] = hx.Pick(r, []string{"Intro", "第一章", "A.1 Scope"})
+			}
+		}
+		if !runOvl(c, cfg, texts, titles) {
+			return
+		}
+		c.Case(fmt.Sprintf("o%v%v", cfg, texts), cfg.Strategy != 0 && len(texts) > 1)
+	}
+	n = c.N(500, 10000)
+	for i := 0; i < n; i++ {
+		r := c.Rng.Fork(uint64(4<<20 + i))
+		maxChunk := hx.Pick(r, []int{60, 120, 200, 400, 1000})
+		np := r.Range(1, 6)
+		var paras []string
+		for k := 0; k < np; k++ {
+			paras = append(paras, genText(r, hx.Pick(r, ovlKinds), r.Range(1, 2*maxChunk)))
+		}
+		overlapSize := hx.Pick(r, []int{0, 1, 2, 5, 10, 11, 30, 100})
+		if !runCwo(c, paras, overlapSize, r.Bool(), maxChunk, r.Chance(1, 4)) {
+			return
+		}
+		c.Case(fmt.Sprintf("w%d%v", overlapSize, paras), overlapSize > 0)
+	}
+}
 
-func Replay(c *hx.Ctx, kase map[string]interface{}) {}
+type edge struct {
+	text string
+	cfg  sizeCfg
+}
+
+func edgeCases() []edge {
+	ch := func(max int) sizeCfg { return sizeCfg{Unit: 0, Max: max, TpcNum: 1, TpcExp: 2, Sem: true} }
+	tk := func(max, num int, exp uint) sizeCfg {
+		return sizeCfg{Unit: 1, Max: max, TpcNum: num, TpcExp: exp, Sem: true}
+	}
+	jp := strings.Repeat("日本語の文章は空白を含まない。", 40)
+	w := strings.Repeat("word ", 100)
+	return []edge{
+		{"", ch(10)}, {" ", ch(1)}, {"a", ch(1)}, {"ab", ch(1)}, {"日", ch(1)}, {"日本", ch(1)}, {"日本", ch(2)}, {"日本語", ch(4)},
+		{jp, ch(200)}, {jp, ch(50)}, {jp, ch(1)}, {jp, tk(50, 1, 2)}, {jp, tk(1, 1, 2)},
+		{w, ch(200)}, {w, ch(7)}, {w, tk(200, 1, 2)}, {w, tk(200, 4, 0)},
+		{strings.Repeat("x", 199) + " ." + " tail words here", ch(200)},
+		{strings.Repeat("word ", 39) + "abcd. " + w, ch(200)}, // '.' exactly at index 200
+		{strings.Repeat("word ", 40) + " ", ch(200)},          // trailing space at index 200
+		{strings.Repeat("word ", 38) + "worda. tail. " + w, ch(200)},
+		{strings.Repeat("\u3000 \n", 30), ch(5)},
+		{"👨‍👩‍👧‍👦👨‍👩‍👧‍👦👨‍👩‍👧‍👦", ch(5)},
+		{strings.Repeat("é", 300), ch(201)},
+		{w, sizeCfg{Unit: 2, Max: 10, TpcNum: 1, TpcExp: 2}}, {w, sizeCfg{Unit: 3, Max: 1, TpcNum: 1, TpcExp: 2}},
+		{strings.Repeat("Para one.\n\n", 50), sizeCfg{Unit: 4, Max: 1, TpcNum: 1, TpcExp: 2}},
+		// tokens-per-char not positive: EstimateTokens documents the 0.25 default
+		{w, tk(20, 0, 0)}, {w, tk(20, -1, 2)}, {jp, tk(200, 0, 0)},
+	}
+}
+
+type ovlEdge struct {
+	cfg   ovlCfg
+	texts []string
+}
+
+func edgeOverlapCases() []ovlEdge {
+	return []ovlEdge{
+		// 堀 = E5 A0 80: the byte 0xA0 looks like NBSP when bytes are taken for runes
+		{ovlCfg{Strategy: 1, Size: 7, Min: 0, Max: 100, Words: true}, []string{"xx堀yy zz", "next"}},
+		{ovlCfg{Strategy: 1, Size: 4, Min: 0, Max: 100, Words: false}, []string{"日本語の文章", "next"}},
+		// overlap of chunk 2 must come from chunk 1's own content
+		{ovlCfg{Strategy: 2, Size: 2, Min: 0, Max: 500, Words: true}, []string{"First one. Second one.", "Tiny.", "Third chunk here."}},
+		// truncation must keep the end of the overlap
+		{ovlCfg{Strategy: 1, Size: 10, Min: 0, Max: 3, Words: true}, []string{"alpha boundary", "x"}},
+		{ovlCfg{Strategy: 2, Size: 2, Min: 0, Max: 30, Words: true}, []string{"Short one. This second sentence is a good deal longer than thirty bytes.", "x"}},
+		{ovlCfg{Strategy: 2, Size: 3, Min: 0, Max: 25, Words: true}, []string{"Alpha beta. Gamma delta. Epsilon zeta.", "x"}},
+		{ovlCfg{Strategy: 3, Size: 1, Min: 0, Max: 7, Words: true}, []string{"para one\n\n日本語の文章です", "x"}},
+	}
+}
+
+// Replay re-runs one recorded failing case on the implementation.
+func Replay(c *hx.Ctx, k map[string]interface{}) {
+	getCfg := func() sizeCfg {
+		m, _ := k["cfg"].(map[string]interface{})
+		f := func(n string) int { v, _ := m[n].(float64); return int(v) }
+		sem, _ := m["sem"].(bool)
+		return sizeCfg{Unit: f("unit"), Max: f("max"), TpcNum: f("tpc_num"), TpcExp: uint(f("tpc_exp")), Sem: sem}
+	}
+	list := func(n string) []string {
+		xs, _ := k[n].([]interface{})
+		return unhexAll(xs)
+	}
+	switch k["kind"] {
+	case "split":
+		runSplit(c, unhex(fmt.Sprint(k["text"])), getCfg())
+	case "doc":
+		runDoc(c, list("paras"), getCfg())
+	case "ovl", "cwo":
+		m, _ := k["ocfg"].(map[string]interface{})
+		f := func(n string) int { v, _ := m[n].(float64); return int(v) }
+		b := func(n string) bool { v, _ := m[n].(bool); return v }
+		if k["kind"] == "ovl" {
+			runOvl(c, ovlCfg{f("strategy"), f("size"), f("min"), f("max"), b("words"), b("ctx")}, list("chunks"), list("titles"))
+		} else {
+			os, _ := k["overlap_size"].(float64)
+			mc, _ := k["max_chunk"].(float64)
+			se, _ := k["sentences"].(bool)
+			runCwo(c, list("chunks"), int(os), se, int(mc), b("ctx"))
+		}
+	}
+}
